@@ -257,17 +257,17 @@ theorem lastWire_map (g : Bool → Bool × Nat) (r : Bool) (ps : List Phase) :
 
 
 /-- `cycle_spec` unfolded, with the parts of the cycle as separate arguments -/
-theorem cycle_facts (f : MockFn) (s : MState) (pre post after : List (Bool × Nat)) (men : Bool)
+theorem cycle_facts (f : MockFn) (s : MState) (pre post after : List (Bool × Nat)) (men : Bool) (x : Nat)
     (hs : s.mock.en = false) :
-    (s.cycle f ⟨pre, men, post, after⟩).2.done = ((lastWire (s.req, s.arg) (pre ++ post)).1 && men) ∧
-    (s.cycle f ⟨pre, men, post, after⟩).2.applied =
+    (s.cycle f ⟨pre, men, post, after, x⟩).2.done = ((lastWire (s.req, s.arg) (pre ++ post)).1 && men) ∧
+    (s.cycle f ⟨pre, men, post, after, x⟩).2.applied =
       (if ((lastWire (s.req, s.arg) (pre ++ post)).1 && men) then
         f.effs s.mock.log (lastWire (s.req, s.arg) (pre ++ post)).2 else []) ∧
     (((lastWire (s.req, s.arg) (pre ++ post)).1 && men) = true →
-      (s.cycle f ⟨pre, men, post, after⟩).2.ret = f.ret s.mock.log (lastWire (s.req, s.arg) (pre ++ post)).2) ∧
-    (s.cycle f ⟨pre, men, post, after⟩).1.mock.log = s.mock.log ++ (s.cycle f ⟨pre, men, post, after⟩).2.applied ∧
-    (s.cycle f ⟨pre, men, post, after⟩).1.mock.en = false := by
-  obtain ⟨h1, h2, h3⟩ := cycle_spec f s ⟨pre, men, post, after⟩ hs
+      (s.cycle f ⟨pre, men, post, after, x⟩).2.ret = f.ret s.mock.log (lastWire (s.req, s.arg) (pre ++ post)).2) ∧
+    (s.cycle f ⟨pre, men, post, after, x⟩).1.mock.log = s.mock.log ++ (s.cycle f ⟨pre, men, post, after, x⟩).2.applied ∧
+    (s.cycle f ⟨pre, men, post, after, x⟩).1.mock.en = false := by
+  obtain ⟨h1, h2, h3⟩ := cycle_spec f s ⟨pre, men, post, after, x⟩ hs
   simp only [specCycle, MOut.view] at h1 h2
   have hdone := congrArg MSpec.done h2
   have happ := congrArg MSpec.applied h2
@@ -304,7 +304,7 @@ theorem sys_step_cmd (f : MockFn) (s : Sys) (i : CycIn) (d : Nat)
     (List.drop (i.e + 1) (List.map (fun p => wiresOf s.w s.k true (d % 2 ^ s.w) p.rdy) i.phases))
     [wiresOf s.w (s.k + 1) true (d % 2 ^ s.w) (lastRdy s.rdy i.phases),
       wiresOf s.w (s.k + 1) (if (some d).isSome = true then false else true) (d % 2 ^ s.w) (lastRdy s.rdy i.phases)]
-    i.men hinv
+    i.men i.x hinv
   have e1 : (wiresOf s.w s.k true (d % 2 ^ s.w) (lastRdy p0.rdy ps)).1 = lastRdy p0.rdy ps := by
     simp [wiresOf]
   have e2 : (wiresOf s.w s.k true (d % 2 ^ s.w) (lastRdy p0.rdy ps)).2 = (d % 2 ^ s.w + s.k) % 2 ^ s.w := by
